@@ -125,7 +125,8 @@ pub fn run(ctx: &Ctx) -> i32 {
             c.ud = Some(UserDataM { text: Some(format!("cel f{} l{}", f, l)), color: None });
         }
         let mut res = CaseResult::ok(gen::features(&sp), 0, "ok");
-        let spec = compile_with(&sp, &mut rng, &Variation::none(), &palprog);
+        let var = if i % 2 == 0 { Variation::none() } else { Variation::only(8) };
+        let spec = compile_with(&sp, &mut rng, &var, &palprog);
         let (bytes, _) = encode(&spec);
         match load(&bytes) {
             Err(e) => res.violations.push(Violation::new(format!("load-failed|routes|{}", err_sig(&e)), format!("well-formed sprite failed to load: {}", e)).with_input(&bytes)),
@@ -138,9 +139,13 @@ pub fn run(ctx: &Ctx) -> i32 {
                     }
                     Err(v) => res.violations.push(v.with_input(&bytes).with_extra(json!({"model": sprite_summary(&sp)}))),
                 }
-                // the routes must also agree with the model on coordinates / user data
+                // the routes must also agree with the model on coordinates / user data / emptiness
                 for f in 0..ase.num_frames() {
                     for l in 0..ase.num_layers() {
+                        let want_empty = !sp.cels.contains_key(&(f as u16, l as u16));
+                        if ase.cel(f, l).is_empty() != want_empty {
+                            res.violations.push(Violation::new("route-vs-model|is-empty", format!("cel({},{}).is_empty() = {} but the file {} a cel there", f, l, !want_empty, if want_empty { "does not store" } else { "stores" })).with_input(&bytes));
+                        }
                         let got = ud_v(ase.frame(f).layer(l).user_data());
                         let want = crate::expect::ud_v(sp.cels.get(&(f as u16, l as u16)).and_then(|c| c.ud.as_ref()));
                         if got != want {
